@@ -585,6 +585,16 @@ def pre_generic_driver(case, result):
     return any((e["ev"] == "persist" and e.get("entry") == "dask") or e["ev"] == "doptimize" for e in h)
 
 
+F2B_MESSAGES = ("from_graph cannot find output block", "Chunks do not add up")
+
+
+def sole_generic_driver(case, result):
+    """F2b is a LOUD failure with a documented message; anything else a run with dask.persist /
+    dask.optimize shows (a wrong value, another exception) is not explained by it."""
+    return result.get("cls") in ("entry-point-raises", "raises-under-history") and any(
+        t in str(result.get("detail")) for t in F2B_MESSAGES)
+
+
 def abl_generic_driver(case):
     return dict(case, history=[dict(e, entry="method") if e["ev"] == "persist" else (dict(e, ev="optimize") if e["ev"] == "doptimize" else e)
                                for e in case["history"]])
